@@ -708,7 +708,7 @@ func genQuestions(t *rapid.T, sharing bool) []Question {
 			case 8:
 				q.Len = 5*3600 + 1800 // 3 slices, the first two identical to case 7's, the last one longer
 			case 9:
-				q.Off, q.Len = 7200, 4*3600 // [2h,6h]: shares [2h,4h) with cases 7 and 8
+				q.Off, q.Len = 7200, 4*3600 // [2h,6h]: shares [2h,4h) with cases 7 and 8; ends exactly on a slice boundary
 			}
 		}
 		if seen[q] {
@@ -745,6 +745,35 @@ func sharedSlices(qs []Question) map[string]bool {
 // Decided from the case (two such questions exist) and the request the observation is about (it is one of the
 // shared slices) - never from message text.
 const classSharedSlice = "identical-slice-of-two-windows"
+
+// Second known-finding class: rangeQuery.CacheKey() hashes the slice end rounded to the step, so the trailing slice
+// [b-2h, b] of a window that ends EXACTLY on a 2h boundary b and the interior slice [b-2h, b-1s] of a longer window
+// (same expr, step) share one cache entry although the first contains the sample at b and the second does not.
+// Decided from the case: question qi ends on a 2h boundary and another question with the same expression has the
+// slice [end-2h, end-1s].
+const classEndOnBoundary = "window-end-on-slice-boundary"
+
+func endOnBoundaryConflict(qs []Question, qi int) bool {
+	q := qs[qi]
+	if q.Kind != "range" {
+		return false
+	}
+	_, we := q.window()
+	if (we-rangeBase)%7200 != 0 {
+		return false
+	}
+	for j, o := range qs {
+		if j == qi || o.Kind != "range" || o.Name != q.Name {
+			continue
+		}
+		for _, sl := range o.slices() {
+			if sl.start == we-7200 && sl.end == we-1 {
+				return true
+			}
+		}
+	}
+	return false
+}
 
 func isSharedSlice(shared map[string]bool, p fakeprom.Pending) bool {
 	if p.Endpoint != "query_range" || len(shared) == 0 {
@@ -901,15 +930,18 @@ func genStress(t *rapid.T) Case {
 }
 
 type stressResult struct {
-	stats      fakeprom.Stats
-	nontrivial bool
-	sharedHits int    // observations that fall into classSharedSlice (tolerated or not)
-	class      string // known-finding class of the returned error ("" = none)
+	stats        fakeprom.Stats
+	nontrivial   bool
+	sharedHits   int    // observations that fall into classSharedSlice (tolerated or not)
+	boundaryHits int    // observations that fall into classEndOnBoundary
+	class        string // known-finding class of the returned error ("" = none)
 }
 
-// runStress: tolerateShared=true skips observations of classSharedSlice (counted in sharedHits) so that the
-// rest of the schedule is still judged.
-func runStress(c Case, tolerateShared bool) (res stressResult, err error) {
+// tolerance: which listed known-finding classes are skipped (and counted) so that the rest is still judged.
+type tolerance struct{ shared, boundary bool }
+
+func runStress(c Case, tol tolerance) (res stressResult, err error) {
+	tolerateShared := tol.shared
 	if len(c.Questions) == 0 || len(c.Callers) == 0 || c.Concurrency <= 0 {
 		return res, fmt.Errorf("%w: empty stress case", errInconclusive)
 	}
@@ -929,7 +961,7 @@ func runStress(c Case, tolerateShared bool) (res stressResult, err error) {
 	type k struct{ q, wave int }
 	results := map[k][]string{}
 	var pan any
-	var wrong error
+	wrong := map[int]error{}
 	var progress atomic.Int64
 	gate := make(chan struct{})
 	for _, order := range c.Callers {
@@ -951,7 +983,9 @@ func runStress(c Case, tolerateShared bool) (res stressResult, err error) {
 					progress.Add(1)
 					if errors.Is(err, errWrongAnswer) {
 						mu.Lock()
-						wrong = err
+						if wrong[qi] == nil {
+							wrong[qi] = err
+						}
 						mu.Unlock()
 					}
 					if err == nil {
@@ -995,8 +1029,18 @@ wait:
 	if pan != nil {
 		return res, fmt.Errorf("a caller panicked: %v", pan)
 	}
-	if wrong != nil {
-		return res, wrong
+	for qi := range c.Questions {
+		if wrong[qi] == nil {
+			continue
+		}
+		if endOnBoundaryConflict(c.Questions, qi) {
+			res.boundaryHits++
+			if tol.boundary {
+				continue
+			}
+			res.class = classEndOnBoundary
+		}
+		return res, wrong[qi]
 	}
 	shared := sharedSlices(c.Questions)
 	// nothing is ever aborted here (no failing range slices), so suspects are final
@@ -1041,6 +1085,17 @@ wait:
 	}
 	// a shared slice that was answered twice carries two nonces: callers of the windows it belongs to may then
 	// legitimately (given that defect) differ in it; their equality is part of the same class
+	boundaryTainted := func(qi int) bool { // qi or the window it collides with
+		if endOnBoundaryConflict(c.Questions, qi) {
+			return true
+		}
+		for j := range c.Questions {
+			if j != qi && c.Questions[j].Name == c.Questions[qi].Name && endOnBoundaryConflict(c.Questions, j) {
+				return true
+			}
+		}
+		return false
+	}
 	tainted := func(q Question) bool {
 		if q.Kind != "range" {
 			return false
@@ -1066,7 +1121,13 @@ wait:
 		rs := results[key]
 		for _, r := range rs[1:] {
 			if r != rs[0] {
-				if tainted(c.Questions[key.q]) {
+				if boundaryTainted(key.q) {
+					res.boundaryHits++
+					if tol.boundary {
+						break
+					}
+					res.class = classEndOnBoundary
+				} else if tainted(c.Questions[key.q]) {
 					res.sharedHits++
 					if tolerateShared {
 						break
@@ -1091,7 +1152,9 @@ func stressClass(c Case) string {
 func driveStress(t *testing.T) {
 	rec := vstat.New(t, prop)
 	known := vstat.KnownClasses(prop)
-	sharedID, tolerate := known[classSharedSlice]
+	sharedID, tolShared := known[classSharedSlice]
+	boundaryID, tolBoundary := known[classEndOnBoundary]
+	tolerate := tolerance{shared: tolShared, boundary: tolBoundary}
 	inconclusive := 0
 	rapid.Check(t, func(rt *rapid.T) {
 		c := genStress(rt)
@@ -1119,8 +1182,11 @@ func driveStress(t *testing.T) {
 			c.Class += ":sharedslices"
 		}
 		rec.Case(c.Class, res.nontrivial, caseKey(c), func() any { return c })
-		if tolerate && res.sharedHits > 0 {
+		if tolShared && res.sharedHits > 0 {
 			rec.KnownHit(sharedID, c)
+		}
+		if tolBoundary && res.boundaryHits > 0 {
+			rec.KnownHit(boundaryID, c)
 		}
 		rec.Count("stress_requests_seen_by_server", int64(res.stats.Requests))
 		rec.Count("stress_max_in_flight_sum", int64(res.stats.MaxInFlight))
@@ -1235,9 +1301,9 @@ func TestReplay(t *testing.T) {
 		}
 	case "stress":
 		for i := 0; i < 10 && err == nil; i++ {
-			_, err = runStress(c, false)
+			_, err = runStress(c, tolerance{})
 			if errors.Is(err, errHang) {
-				if _, err2 := runStress(c, false); !errors.Is(err2, errHang) {
+				if _, err2 := runStress(c, tolerance{}); !errors.Is(err2, errHang) {
 					err = fmt.Errorf("%w: callers stalled once but not when the schedule was run again", errInconclusive)
 				}
 			}
